@@ -106,7 +106,7 @@ def _eval(case):
     # conjugate axis against the independent formula
     exp_len, exp_step, exp_start0 = FS.conjugate_axis(N, dt, case["atype"], case["dir"])
     cstep = _ax(conj_ax)[2]
-    if conj_ax.length != exp_len or abs(cstep - exp_step) > TOL * exp_step:
+    if conj_ax.length != exp_len or abs(cstep - exp_step) > TOL * abs(exp_step):
         viol.append(("conjugate-axis/%s/grid" % tag,
                      "conjugate axis has length/step %s/%g, expected %d/%g"
                      % (conj_ax.length, cstep, exp_len, exp_step), None))
@@ -118,20 +118,23 @@ def _eval(case):
     worst_sum, worst_rt = 0.0, 0.0
     nbasis = 0
     for k in range(N):
-        for phase in (1.0, 1.0j):
+        # amplitudes: the transforms are linear, the size of the data must not matter (1e-9:
+        # every component is below the absolute tolerances of numpy.allclose / isclose)
+        for phase in (1.0, 1.0j, 1.0e-9, 1.0e-9j):
             if case["dir"] == "w" and case["atype"] == "upper-half":
                 # functions on a half frequency axis are only meaningful as images of
                 # Hermitian-extended time functions; those are reached from the time side
                 # (dir=t, upper-half).  Only the axis clause is checked from this side.
                 continue
             nbasis += 1
+            amp = abs(phase)
             y = numpy.zeros(N, dtype=complex)
             y[k] = phase
             f = qr.DFunction(ax, y.copy())
             F = f.get_Fourier_transform()
             if sum_applies and case["dir"] == "t":
                 ref = FS.direct_sum(_ax(ax)[0], y, dt, _ax(F.axis)[0], case["atype"])
-                ok, err = approx(F.data, ref, TOL, scale=dt)
+                ok, err = approx(F.data, ref, TOL, scale=abs(dt) * amp)
                 worst_sum = max(worst_sum, err)
                 if not ok:
                     viol.append(("ft-sum/%s" % tag,
@@ -149,7 +152,7 @@ def _eval(case):
                     else:
                         f2.data = y.copy()
                     F2 = f2.get_Fourier_transform()
-                    ok2, err2 = approx(F2.data, F.data, TOL, scale=dt)
+                    ok2, err2 = approx(F2.data, F.data, TOL, scale=abs(dt) * amp)
                 except Exception as e:
                     ok2, err2 = False, float("inf")
                 if not ok2:
@@ -163,7 +166,7 @@ def _eval(case):
                 Wv = 1.0 - (numpy.arange(N) + 1.0) / (2.0 * N + 3.0)
                 Fw = f.get_Fourier_transform(window=qr.DFunction(ax, Wv.copy()))
                 Fr = qr.DFunction(ax, y * Wv).get_Fourier_transform()
-                okw, errw = approx(Fw.data, Fr.data, TOL, scale=dt)
+                okw, errw = approx(Fw.data, Fr.data, TOL, scale=abs(dt) * amp)
                 if not okw:
                     viol.append(("ft-window/%s" % tag,
                                  "FT(delta_%d*%s, window=W) differs from FT(delta*W) by %g (N=%d)"
@@ -183,13 +186,13 @@ def _eval(case):
                                                     float(numpy.max(numpy.abs(f.data - y))),
                                                     float(numpy.max(numpy.abs(F.data - Fkeep)))),
                              {"k": k}))
-            if not approx(g_again.data, g.data, TOL, scale=1.0)[0] or \
-                    not approx(F_again.data, Fkeep, TOL, scale=dt)[0]:
+            if not approx(g_again.data, g.data, TOL, scale=amp)[0] or \
+                    not approx(F_again.data, Fkeep, TOL, scale=abs(dt) * amp)[0]:
                 viol.append(("second-transform-of-same-object-differs/%s" % tag,
                              "transforming the same object a second time gives another function "
                              "(delta_%d*%s, N=%d)" % (k, phase, N), {"k": k}))
             badax = _same_axis(ax, g.axis)
-            ok, err = approx(g.data, y, TOL, scale=1.0)
+            ok, err = approx(g.data, y, TOL, scale=amp)
             worst_rt = max(worst_rt, err if numpy.isfinite(err) else 1e300)
             if not ok or badax:
                 viol.append(("roundtrip/%s/%s" % (tag, "values" if not ok else "axis"),
@@ -203,7 +206,7 @@ def _eval(case):
                 continue
             G = f.get_inverse_Fourier_transform()
             g2 = G.get_Fourier_transform()
-            ok2, err2 = approx(g2.data, y, TOL, scale=1.0)
+            ok2, err2 = approx(g2.data, y, TOL, scale=amp)
             if not ok2 or _same_axis(ax, g2.axis):
                 viol.append(("roundtrip-inv-first/%s" % tag,
                              "inverse FT then FT of delta_%d*%s (N=%d, start=%g) differs by %g"
@@ -227,7 +230,7 @@ def replay(case):
 def cases(tier):
     Ns = list(range(2, 10)) if tier == "quick" else list(range(2, 18)) + [32, 33, 64, 101]
     dom = {"ctx": [None, "1/cm"], "dir": ["t", "w"], "atype": ["complete", "upper-half"],
-           "start": ["zero", "centred", 3.0, -1.25], "step": [1.0, 0.5, 2.0, 0.37],
+           "start": ["zero", "centred", 3.0, -1.25], "step": [1.0, 0.5, 2.0, 0.37, -1.0],
            "N": Ns}
     return product(dom)
 
